@@ -20,7 +20,7 @@ CONSTANTS
   Points <- HistPoints
   SpanChoice <- HistSpans
   SubsetCats = {0, 1, 3}
-  Ops = {"Subset", "Union", "Update", "Copy", "Pickle", "Json", "WriteLoad"}
+  Ops = {"Subset", "Union", "Update", "Copy", "Pickle", "Json", "WriteLoad", "QueryList", "CountDistinct", "Describe"}
   Others <- OthersMore
   UpdateSeqids = {{}, {"s1"}, {"s2"}, {"s1", "s2"}}
 INVARIANT TypeOK
@@ -28,4 +28,7 @@ INVARIANT StoredNormalised
 INVARIANT SqlAgreesOnBag
 INVARIANT SubsetIdempotent
 INVARIANT QueryDistributesOverUnion
+INVARIANT ListIsUnionOfSingles
+INVARIANT CountRowsPartition
+INVARIANT TalliesSumToLen
 PROPERTY OnlyGrowsOrFilters
